@@ -89,9 +89,9 @@ func (f *Defun) Call(s *slip.Scope, args slip.List, depth int) (result slip.Obje
 			_, _ = fmt.Fprintf(w, "WARNING: redefining %s:%s in defun\n", slip.CurrentPackage.Name, low)
 		}
 	}
-	pkg.DefLambda(low, lc, fc, slip.FunctionSymbol)
 	if 0 < len(s.Parents()) {
 		lc.Closure = s
 	}
+	pkg.DefLambda(low, lc, fc, slip.FunctionSymbol)
 	return name
 }
